@@ -108,3 +108,13 @@ add("C18", "before/after snapshots and raw digests over renaming chains, on the 
     "names, rejection of dropped names, the raw digest of all non-name data and schema validity are checked on the "
     "same object and on a fresh Cooler.",
     "DESIGN.md section 4 C18")
+add("C13", "fault enumeration: invalid records x every chunk/position, iterator exceptions before every chunk, sys.monitoring LINE failpoints at every executed writer line, os._exit at chunk boundaries; raw-digest neighbour oracle",
+    "Destinations of six kinds (new file root/nested, root of a populated non-cooler file, new group, existing empty "
+    "group, existing non-cooler group) next to 0-3 neighbour collections and foreign groups/datasets/attributes are "
+    "written by ordered/unordered create, merge and coarsen while one fault is injected: each invalid record kind at "
+    "every chunk index and first/middle/last position, an iterator exception before every chunk, an exception at every "
+    "executed source line of the writer/index/info/merge/coarsen code (PEP 669 LINE failpoints; quick: stratified "
+    "sample + the whole index/info phase, thorough: all), or process exit at chunk boundaries in a subprocess. After "
+    "each: BadInputError for invalid input, destination not recognised/listed, all neighbour digests, the listing and "
+    "foreign objects unchanged. Faults planned but not delivered make the case inconclusive.",
+    "DESIGN.md section 4 C13", level="fault_enumeration")
